@@ -1061,6 +1061,29 @@ impl PipeEngine {
                 }
             }
         }
+        // a multi-step sequence: first a damaged copy of the document is read (and refused or not —
+        // the result does not matter), then the intact document; nothing may carry over
+        if faults && ctx.chance(1, 3) && !reference.is_empty() {
+            let mut damaged = reference.clone();
+            for _ in 0..1 + ctx.draw(3) {
+                let i = ctx.draw(damaged.len() as u64) as usize;
+                match ctx.draw(3) {
+                    0 => damaged[i] ^= 1 << ctx.draw(8),
+                    1 => damaged[i] = ctx.with_tape(|t| *t.pick(b"=!\"\\x0 ")),
+                    _ => {
+                        damaged.truncate(i);
+                        if damaged.is_empty() {
+                            break;
+                        }
+                    }
+                }
+            }
+            let server = ctx.chance(1, 2);
+            let _ = guarded(|| de::<T>(mode, server, Source::Slice, &damaged, ReadPlan::default()).0.is_ok());
+            ctx.count("fault.damaged_read_before_round_trip");
+            ctx.sig("damaged-first");
+            ctx.mark_nontrivial();
+        }
         // (b)/(d) every source x role
         for server in [false, true] {
             for src in [Source::Str, Source::Slice, Source::MutSlice, Source::Reader] {
